@@ -1067,6 +1067,153 @@ def execute_resave(desc, ctx):
         ctx.label('thumb_regenerated')
 
 
+# ------------------------------------------------------------------ sub-check: failed_save_then_save
+
+class _DiskFull(OSError):
+    pass
+
+
+class FailingStream(io.BytesIO):
+    """A seekable stream whose k-th write() raises OSError (ENOSPC)."""
+    def __init__(self, fail_at: int) -> None:
+        super().__init__()
+        self.fail_at = fail_at
+        self.writes = 0
+
+    def write(self, data):
+        self.writes += 1
+        if self.writes == self.fail_at:
+            raise _DiskFull(28, 'No space left on device')
+        return super().write(data)
+
+
+UNSUPPORTED = ['DXT1', 'DXT5', 'DXT3', 'ATI2N']     # no pure-Python saver: save() raises NotImplementedError
+
+
+def failed_strategy(tier):
+    k = st.one_of(st.integers(1, 12), st.integers(1, 60))
+    other = st.sampled_from([2, 3, 4, 5])
+    op = st.one_of(
+        st.tuples(st.just('save_fail'), k).map(list),
+        st.tuples(st.just('save_version_fail'), other, k).map(list),
+        st.tuples(st.just('save_unsupported'), st.sampled_from(['thumb', 'main']), st.sampled_from(UNSUPPORTED),
+                  st.one_of(st.none(), other)).map(list),
+        st.tuples(st.just('load_truncated'), st.integers(1, 400)).map(list),
+    )
+    return st.fixed_dictionaries({
+        'tex': tex_strategy(tier, small=True, fmts=RESAVE_FORMATS, thumbs=['NONE', 'RGB888', 'RGBA8888', 'BGRA4444']),
+        'resources': resources_strategy(),
+        'sheet': sheet_strategy(),
+        'sheet_version': st.sampled_from([None, 0, 1]),
+        'ops': st.lists(op, min_size=1, max_size=4),
+    })
+
+
+def _own_state(v):
+    """The object's own observable state (nothing is loaded or changed by looking)."""
+    return {
+        'version': tuple(v.version), 'flags': v.flags.value, 'format': v.format.name, 'low_format': v.low_format.name,
+        'width': v.width, 'height': v.height, 'depth': v.depth, 'frame_count': v.frame_count,
+        'mipmap_count': v.mipmap_count, 'first_frame_index': v.first_frame_index, 'bumpmap_scale': v.bumpmap_scale,
+        'reflectivity': [v.reflectivity.x, v.reflectivity.y, v.reflectivity.z],
+        'frame_keys': frame_keyset(v),
+        'resources': {res_raw(k).hex(): (res.flags, res.data) for k, res in v.resources.items()},
+        'sheet': sheet_observed(v.sheet_info),
+    }
+
+
+def _decoded_state(r, tex):
+    st_ = _own_state(r)
+    st_['resources'] = {k: (f | 2, d) for k, (f, d) in st_['resources'].items()}
+    st_['pixels'] = {key: frame_bytes(get_frame(r, tex, key)) for key in st_['frame_keys']}
+    st_['thumb'] = frame_bytes(r._low_res) if r.low_format.name != 'NONE' else b''
+    return st_
+
+
+def _diff_states(ctx, clause, want, got, text, **facts):
+    for name in want:
+        if want[name] != got.get(name):
+            w_, g = want[name], got.get(name)
+            if name == 'pixels':
+                bad = sorted(k for k in set(w_) | set(g) if w_.get(k) != g.get(k))
+                w_, g = f'frames {bad[:6]} differ', ''
+            elif name == 'thumb':
+                w_, g = 'thumbnail pixels differ', ''
+            ctx.fail(clause, f'{text}: {name} = {g!r}, expected {w_!r}', field=name, **facts)
+
+
+def execute_failed_save(desc, ctx):
+    from srctools.vtf import VTF, ImageFormats
+    tex = Tex(dict(desc['tex'], save_version=None))
+    tex.label(ctx, nontrivial=False)
+    b = build(tex, resources=desc['resources'], sheet=desc['sheet'])
+    v = b.v
+    sv = desc['sheet_version']
+    own0 = _own_state(v)
+    raw0, r0 = save_and_read(tex, v, sv)
+    want = _decoded_state(r0, tex)
+    _diff_states(ctx, 'object_changed_by_save', own0, _own_state(v), 'a plain successful save() changed the object')
+    if tex.final_minor >= 3:
+        ctx.label('has_resources' if desc['resources'] else 'no_resources', 'has_sheet' if desc['sheet'] else 'no_sheet')
+    any_failed = False
+    for op in desc['ops']:
+        kind = op[0]
+        failed = None
+        if kind in ('save_fail', 'save_version_fail'):
+            stream = FailingStream(op[-1])
+            kw = {} if sv is None else {'sheet_seq_version': sv}
+            name = 'save'
+            if kind == 'save_version_fail' and op[1] != tex.minor:
+                kw['version'] = (7, op[1])
+                name = 'save_with_version_override'
+            try:
+                v.save(stream, **kw)
+            except _DiskFull:
+                failed = name
+        elif kind == 'save_unsupported':
+            _, which, fmtname, over = op
+            if which == 'thumb' and (tex.thumb == 'NONE' or 0 in tex.thumb_dims):
+                which = 'main'
+            attr = 'low_format' if which == 'thumb' else 'format'
+            saved_fmt = getattr(v, attr)
+            setattr(v, attr, ImageFormats[fmtname])
+            kw = {} if sv is None else {'sheet_seq_version': sv}
+            name = 'unsupported_' + which
+            if over is not None and over != tex.minor:
+                kw['version'] = (7, over)
+                name += '_with_version_override'
+            try:
+                try:
+                    v.save(io.BytesIO(), **kw)
+                except NotImplementedError:
+                    failed = name
+                _diff_states(ctx, 'object_changed_by_failed_call', dict(own0, **{attr: fmtname}), _own_state(v),
+                             f'after {name} raised (format still set to {fmtname})', op=name)
+            finally:
+                setattr(v, attr, saved_fmt)
+        else:   # load() of a truncated copy of the file, on another object: must not disturb this one
+            main_bytes = sum(BPP[tex.fmt] * len(p) // 4 for p in want['pixels'].values())   # image data ends the file
+            cut = len(raw0) - 1 - op[1] % main_bytes
+            other = VTF.read(io.BytesIO(raw0[:cut]))
+            try:
+                other.load()
+            except BufferError:
+                failed = 'load_truncated_other_object'
+        if failed is None:
+            ctx.label('op_did_not_fail')
+            _diff_states(ctx, 'object_changed_by_save', own0, _own_state(v), f'after a successful {kind}')
+            continue
+        any_failed = True
+        ctx.label('failed:' + failed)
+        _diff_states(ctx, 'object_changed_by_failed_call', own0, _own_state(v), f'right after {failed} raised', op=failed)
+        raw1, r1 = save_and_read(tex, v, sv)
+        _diff_states(ctx, 'save_after_failure', want, _decoded_state(r1, tex),
+                     f'normal save -> read after {failed} raised, compared with the save before it', op=failed)
+        ctx.check(raw1 == raw0, 'save_after_failure_bytes', f'normal save after {failed} raised gives different bytes '
+                  f'(len {len(raw0)} -> {len(raw1)})', op=failed)
+    ctx.nontrivial(any_failed)
+
+
 # ------------------------------------------------------------------ registration
 
 def m_fmt565_rb_swapped(desc, clause, facts):
@@ -1103,6 +1250,10 @@ SUBCHECKS = [
     Sub('resave', execute_resave, strategy=resave_strategy, quick=1600, thorough=16000, floor=300,
         must_hit=('access:none', 'access:subset', 'access:all', 'unloaded_mips', 'reduced', 'exact', 'nmips:4')
         + tuple('fmt:' + f for f in RESAVE_FORMATS)),
+    Sub('failed_save_then_save', execute_failed_save, strategy=failed_strategy, quick=1600, thorough=16000, floor=300,
+        must_hit=('failed:save', 'failed:save_with_version_override', 'failed:unsupported_thumb', 'failed:unsupported_main',
+                  'failed:unsupported_thumb_with_version_override', 'failed:load_truncated_other_object',
+                  'has_resources', 'has_sheet', 'ver:7.2', 'ver:7.4', 'layout:cube6', 'layout:cube7')),
     Sub('mipmaps', execute_mipmaps, strategy=mip_strategy, quick=2000, thorough=20000, floor=300,
         must_hit=('parents:2x2', 'parents:2x1', 'parents:1x2', 'origin:ctor', 'origin:file') + _LAYOUTS),
 ]
